@@ -67,6 +67,7 @@ class M(HasTraits):
     peers_l = List(T.This)
     peers_d = Dict(Str, T.This)
     tmp = Int(5, transient=True)
+    keep = Int(3, transient=False)          # explicitly NOT transient
     ro = ReadOnly
     ref_list = List(Int, copy="ref")
     sh_list = List(List(Int), copy="shallow")
@@ -119,7 +120,7 @@ OP = st.one_of(
     st.tuples(st.just("ro"), st.integers(0, 9)), st.tuples(st.just("ref"), st.lists(I5, max_size=3)),
     st.tuples(st.just("sh"), st.lists(st.lists(I5, max_size=2), max_size=2)), st.tuples(st.just("llapp"), I5),
     st.tuples(st.just("palette"), st.sampled_from(["black", "blue"])), st.tuples(st.just("shade"), st.sampled_from(["red", "green"])),
-    st.tuples(st.just("w"), st.integers(1, 9)), st.tuples(st.just("wz"), st.integers(1, 9)),
+    st.tuples(st.just("w"), st.integers(1, 9)), st.tuples(st.just("wz"), st.integers(1, 9)), st.tuples(st.just("keep"), st.integers(4, 9)),
     st.tuples(st.just("dc"), st.sampled_from("ab"), st.sampled_from(["child", "kid", "fresh"])),
     st.tuples(st.just("dc"), st.sampled_from("ab"), st.sampled_from(["child", "kid", "fresh"])),
     st.tuples(st.just("peers"), st.sampled_from(["s", "l", "d"])), st.tuples(st.just("peers"), st.sampled_from(["s", "l", "d"])),
@@ -218,6 +219,9 @@ def objects_run(case, ctx):
         elif k in ("w", "wz"):
             setattr(o, k, op[1])
             interesting = True
+        elif k == "keep":
+            o.keep = op[1]
+            ctx.label("explicitly-non-transient-trait-set")
         elif k == "peers":
             peer = M()
             if op[1] == "s":
@@ -280,7 +284,7 @@ def objects_run(case, ctx):
         if getattr(c, pn) != c.w * 100 + c.wz or getattr(c, pn) != getattr(o, pn):
             ctx.fail("live/property-dependency", "%s: cached property %s of the image reads %r; w=%r wz=%r (original reads %r)"
                      % (mode, pn, getattr(c, pn), c.w, c.wz, getattr(o, pn)))
-    names = ["li", "ll", "lll", "dl", "si", "kids", "ref_list", "sh_list", "child", "ro", "z_palette", "w", "wz", "dc"]
+    names = ["li", "ll", "lll", "dl", "si", "kids", "ref_list", "sh_list", "child", "ro", "z_palette", "w", "wz", "dc", "keep"]
     for n in names:
         if plain(getattr(c, n)) != plain(getattr(o, n)):
             ctx.fail("state/value", "%s: %s is %r, original %r" % (mode, n, plain(getattr(c, n)), plain(getattr(o, n))))
